@@ -551,6 +551,8 @@ func (d *dataCloser) Close() error {
 	if d.closed {
 		return fmt.Errorf("smtp: data writer closed twice")
 	}
+	// Whatever the outcome, the end-of-data exchange must not be repeated.
+	d.closed = true
 
 	if err := d.WriteCloser.Close(); err != nil {
 		return err
@@ -583,7 +585,6 @@ func (d *dataCloser) Close() error {
 		}
 	}
 
-	d.closed = true
 	return nil
 }
 
